@@ -435,7 +435,7 @@ impl MerkleTree {
     tags: C09 C03 C04
     result: r
     requires:
-        self.t_wf(), index < 0x400_0000_0000
+        self.t_wf(), index < 0x4_0000_0000_0000
     ensures:
         // an instruction reads exactly the 40-byte record of that node from the tree store
         r is Ok && r->Ok_0 is Left ==> r->Ok_0->Left_0.store == Store::Tree && r->Ok_0->Left_0.info_type == StoreInfoType::Content
@@ -451,7 +451,7 @@ impl MerkleTree {
     tags: C09 C03 C04
     result: r
     requires:
-        self.t_wf(), index < 0x400_0000_0000
+        self.t_wf(), index < 0x4_0000_0000_0000
     ensures:
         r is Ok && r->Ok_0 is Left ==> r->Ok_0->Left_0.store == Store::Tree && r->Ok_0->Left_0.index == 40 * index && !r->Ok_0->Left_0.allow_miss,
         r is Ok && r->Ok_0 is Right ==> self.trusted(index, nodes) is Some && Node::eqv(r->Ok_0->Right_0, self.trusted(index, nodes)->Some_0)
@@ -460,7 +460,7 @@ impl MerkleTree {
     tags: C09 C03
     result: r
     requires:
-        self.t_wf(), index < 0x400_0000_0000
+        self.t_wf(), index < 0x4_0000_0000_0000
     ensures:
         r is Ok && r->Ok_0 is Left ==> r->Ok_0->Left_0.store == Store::Tree && r->Ok_0->Left_0.index == 40 * index && r->Ok_0->Left_0.allow_miss
     @*/
